@@ -52,6 +52,8 @@ def transcript_lines(h, ctx=None, as_file=None, tag=""):
         else:
             out.append("EVAL " + C.esc(p))
         out += ["TICKS", "DUMP a b c shared-name gensym-counter"]
+    # the complete symbol state (every bound symbol that differs from a fresh context) at the end of the history
+    out += ["EVAL nil", "TICKS", "INVENTORY diff"]
     return out
 
 def generate(tier, seed):
